@@ -485,6 +485,8 @@ class PathSim:
             return ("obj", cls, args, n.get("l"))
         if k == "initlist":
             args = tuple(self._val(a, st) for a in n.get("args", []))
+            if len(args) == 1:
+                return args[0]
             if len(args) == 2 and n.get("t", "").startswith("std::pair<"):
                 return ("pair", args[0], args[1])
             return ("initlist", args)
